@@ -355,6 +355,8 @@ def s_materialize_reshape(ctx):
     ok = isinstance(r, Call) and r.op == "Reshape" and r.args[0] is data and isinstance(r.args[1], Call) and r.args[1].op == "Constant" \
         and r.kwargs == {"allowzero": 1} and len(made) == 1 and made[0][1] == ir.DataType.INT64
     ctx.check("C05.rules.MaterializeReshapeShape.replacement_is_reshape_of_data_by_a_constant_with_allowzero", ok, CL09)
+    ctx.check("C09.rules.MaterializeReshapeShape.materialized_dims_are_read_literally_allowzero_1", ok,
+              CL09 + " — the materialised dims are concrete extents: a 0 must mean 'zero', not 'copy the input dim' (allowzero=1)")
     if not ok:
         return
     new = made[0][0]
